@@ -16,7 +16,7 @@ P = {
  "C02": ("real-time order oracle: at every operation start, every operation on the object whose scheduling call had returned before this one was invoked has finished; returned values are checked against the log prefix", "6/C02"),
  "C03": ("exactly-once + no-stranding: run counters at every start; at quiescence (nothing runnable without a new API call) every accepted operation has run, attributed only when a pool thread is free or spawnable; try_sync probe that nothing is left marked running", "6/C03"),
  "C04": ("sync liveness + result: closure runs once strictly inside the call, value is its own; a sync that has not returned at quiescence with nothing unfinished ahead of it is a violation, for every queue state, pool 0..3 and saturated pools", "6/C04"),
- "C05": ("drop oracle: value destroyed exactly once, after every accepted operation has ended, never used afterwards, and the dropping call returns; last owner dropped from callers, pool jobs and root while work is queued/running/suspended", "6/C05"),
+ "C05": ("drop oracle: value destroyed exactly once, after every accepted operation has ended, never used afterwards, and the dropping call returns; last owner dropped from callers, pool jobs and root while work is queued/running/suspended or while a polled future has parked the queue; a drop that never returns because the library lost the operation it waits for", "6/C05"),
  "C06": ("lost wake-up oracle: gates keep every waker and are opened by racing tasks (optionally twice); at quiescence every operation suspended on an opened gate has been resumed, for pool-thread, sync-caller and polling-task runners", "6/C06"),
  "C07": ("future result oracle: Ok(own token) exactly once, never before the operation ended, awaiting tasks always resumed, dropped/detached/never-polled futures still run (pool>=1), pool 0 single-context awaiting makes progress", "6/C07"),
  "C08": ("future_sync slot oracle: body starts only inside a poll of its own future and inside its queue slot (occupancy + order oracles), drop at any point ends the user future before any later operation starts, later operations still run", "6/C08"),
@@ -26,8 +26,8 @@ P = {
  "C12": ("pipe oracle: outputs equal f(inputs) in order then None; consumer blocked at quiescence while an output/end is available, or producer stalled below depth with input waiting, is a violation; depths 1..5", "6/C12"),
  "C13": ("suspend oracle (scheduler API level): at resolution everything scheduled before has ended; nothing invoked after starts before resume/drop of the resumer; held work then runs (order oracle) and syncs return", "6/C13"),
  "C14": ("memory-safety canaries under the controlled runtime: value never used after / destroyed twice, closure storage released exactly once and never run or alive after the call returned, borrowed frame alive while the closure runs", "6/C14"),
- "C15": ("panic containment: one injected panic per case in each runner context; afterwards every scheduling attempt on the panicked object panics without blocking, healthy objects run a fresh program, the pool starts `max` simultaneous jobs again", "6/C15"),
- "C16": ("pipe shutdown oracle: after the output stream is dropped and with a silent input, at quiescence the input stream and the processing closure have been dropped once and the Desync reference released (while a pool thread is available)", "6/C16"),
+ "C15": ("panic containment: one injected panic per case in each runner context; (optionally with a payload whose own destructor panics); afterwards every scheduling attempt on the panicked object — also one made by a destructor while its caller unwinds — panics without blocking, healthy objects run a fresh program, the pool starts `max` simultaneous jobs again", "6/C15"),
+ "C16": ("pipe shutdown oracle: after the output stream is dropped and with a silent input, at quiescence the input stream and the processing closure have been dropped once and the Desync reference released (while a pool thread is available); judged at the end and at every mid-run quiescence with gates still closed, when nothing else is unfinished on the pipe's object", "6/C16"),
  "C17": ("pool size oracle: spawn hook checks live pool threads <= maximum at every thread creation; after lowering the maximum, despawn returns with live <= maximum; maximum 0 never creates a thread", "6/C17"),
 }
 
